@@ -81,7 +81,18 @@ def run(chk):
     # exhaustive single bytes and pairs of special characters through encoding/json
     special = [34, 92, 10, 13, 9, 8, 12, 0, 31, 60, 62, 38, 127, 47, 32, 65]
     lines = ['jsonstr =%02x' % b for b in range(128)] + ['jsonstr =%02x%02x' % (a, b) for a in special for b in special]
+    # the same bytes as the value of a string-rendered custom field through the collector's own formatter
+    lines += ['fmtstr =%02x' % b for b in range(128)] + ['fmtstr =41%02x42' % b for b in range(128)]
+    lines += ['fmtstr =%02x%02x' % (a, b) for a in special for b in special]
+    rs = random.Random(chk.seed + 77)
+    lines += ['fmtstr =' + bytes(rs.choice(special + list(range(32, 127))) for _ in range(rs.randrange(0, 300))).hex() for _ in range(300)]
     bad = run_scope_b(chk, me, lines, 'json-bytes', {})
+    # a string value the formatter wrote that is not the JSON escaping of the bytes is a property violation
+    for a, o, m in list(bad):
+        if a.startswith('fmtstr'):
+            chk.record('scopeA-fmtstr', dict(concrete=True, input=a, impl=o, expected=m,
+                       what='a string-rendered custom field is not written as the well-formed JSON string of its bytes'), {})
+            bad.remove((a, o, m))
     chk.exhaustive.append('all 128 single ASCII bytes and all pairs of 16 special characters through encoding/json')
     resolve_scope_b(chk, me, bad, 'json-bytes', {}, None, None)
     # generated formatter configurations, implementation-side oracles
